@@ -66,6 +66,19 @@ CLAIMS = {
              "local position its loader may report.",
         note="Bounded string lengths and index ranges (see evidence). toPosition/objectPath are contract stubs under symx and real in the native replay.",
     ),
+    "C02": dict(
+        text="For every guard condition up to the depth bound and ALL valuations of its atoms the solver shows: the preprocessed CFG reaches the true branch iff the original condition holds; every "
+             "non-nil fact attributed to an edge is true on that edge; every leaf condition left in the CFG is canonical (`v == nil` or an opaque atom) and each canonical nil test is recognised by "
+             "AddNilCheck on exactly its non-nil edge.",
+        note="Partial: recognition and branch attribution only; discharge of the dereference in the assertion tree, loops, switch-on-nil and early returns are inside C01's core (not applicable). "
+             "AddProduction is a recorder under symx; no native re-run of sampled paths for this check.",
+    ),
+    "C17": dict(
+        text="On every explored path the driver-shared CFG (blocks, Nodes/Succs backing arrays) and AST are byte-for-byte unchanged after preprocess.CFG + blocksAndPreprocessingFromCFG + AddNilCheck, "
+             "the result aliases none of them, and the ctrlflow CFG of a templ component's function literal is unchanged by the inlining.",
+        note="Partial: the CFG-preprocessing kernel only (the one place a source scan found in-place writes). Found and fixed (fix: commit): inlineTemplComponentFuncLit wrote into the shared literal CFG; "
+             "confirmed natively by an analyzer sharing the pass (TestVerifC17TemplProbe).",
+    ),
 }
 
 # reasons for every property not (yet) claimed
@@ -74,5 +87,5 @@ NOT_APPLICABLE = {
     "C16": "The quantifier is goroutine interleavings over the whole analysis heap; symx has no thread model and no installed solver-based engine explores Go schedules.",
     "C18": "Everything the property depends on is environment (process cwd captured at init, filepath.Rel, driver cwd); after stubbing those by contract the residual repo code is a one-line wrapper.",
 }
-for _p in ["C02", "C07", "C08", "C09", "C14", "C17", "C20"]:
+for _p in ["C07", "C08", "C09", "C14", "C20"]:
     NOT_APPLICABLE.setdefault(_p, "kernel check not yet registered (in progress; see DESIGN.md section 4)")
